@@ -28,6 +28,7 @@ ENTRY = [UPD + "::auto_add_nodes", UPD + "::auto_delete_free_nodes", UPD + "::ch
          MIG + "::migrate_slots_to_scale_down", MS + "::auto_change_node_number"]
 
 MUTANTS = [
+    {"name": "is_migrating-node-count-shortcut", "file": "src/broker/store.rs", "old": "    pub fn is_migrating(&self) -> bool {\n", "new": "    pub fn is_migrating(&self) -> bool {\n        if self.get_node_number_with_slots() == self.get_node_number() {\n            return false;\n        }\n", "expect": "C10.D1:is_migrating:running=1"},
     {"name": "running-test-all-halves", "file": "src/broker/migrate.rs", "old": "            .any(|chunk| chunk.migrating_slots.iter().any(|slots| !slots.is_empty()));\n        if running_migration {", "new": "            .any(|chunk| chunk.migrating_slots.iter().all(|slots| !slots.is_empty()));\n        if running_migration {", "expect": "C10.D1:existential"},
     {"name": "change_config-no-guard", "file": "src/broker/update.rs", "old": "                if cluster.is_migrating() {\n                    return Err(MetaStoreError::MigrationRunning);\n                }\n\n                let mut cluster_config", "new": "                let mut cluster_config", "expect": "C10.D1:change_config"},
     {"name": "release-ignores-migrating", "file": "src/broker/update.rs", "old": "                    for slots in chunk.migrating_slots.iter() {\n                        if !slots.is_empty() {\n                            return true;\n                        }\n                    }\n                    removed_chunks.push(chunk.clone());", "new": "                    removed_chunks.push(chunk.clone());", "expect": "C10.D2"},
@@ -151,6 +152,17 @@ def _is_migrating(ctx):
                 fields |= {n for a, n in place_fields(pl)}
         empties += len(calls_to(fb, "Vec::is_empty"))
     ctx.check("migrating_slots" in fields and empties >= 1, "C10.D1", "is_migrating:subject", site(b), ok="is_migrating = some migrating_slots non-empty", bad="is_migrating does not inspect migrating_slots")
+    # and nothing else decides: with the existential answering v, the function returns v whatever the other calls say
+    anys = [(bb, t) for bb, t in b.calls() if (callee_decl(t) or "") == "std::iter::Iterator::any"]
+    if ctx.floor("C10.D1", "is_migrating any()", len(anys), 1):
+        for v in (0, 1):
+            def call(interp, bbx, term, argvals, v=v):
+                if term is anys[0][1]:
+                    return Bool(v)
+                return None
+            rv = Interp(F, b, Oracle(call=call)).run().return_value()
+            ctx.check(rv == Int(v), "C10.D1", "is_migrating:running=%d" % v, site(b), ok="returns %s" % bool(v),
+                      bad="with some chunk half %s, is_migrating can return %s: another test (a shortcut on node counts, a cached flag) overrides the scan of migrating_slots, so a running migration can be reported as idle" % ("busy" if v else "idle", rv))
 
 
 def _release(ctx):
